@@ -12,14 +12,15 @@ pub(super) fn verify(
     imm: i16,
     num_regs: usize,
     bytecode_len: usize,
+    starts: &[bool],
 ) -> Result<bool, String> {
     match opcode {
         OpCode::Jump => {
-            verify_jump(ip, imm, bytecode_len, "Jump")?;
+            verify_jump(ip, imm, bytecode_len, starts, "Jump")?;
         }
         OpCode::JumpIf | OpCode::JumpIfNot => {
             verify_reg(a, num_regs, "JumpIf")?;
-            verify_jump(ip, imm, bytecode_len, "JumpIf")?;
+            verify_jump(ip, imm, bytecode_len, starts, "JumpIf")?;
         }
         OpCode::Return => {
             verify_reg(a, num_regs, "Return")?;
@@ -29,27 +30,27 @@ pub(super) fn verify(
         OpCode::ForLoopI | OpCode::ForLoopIInc => {
             // ForLoopI uses 3 consecutive registers: a (iter), a+1 (limit), a+2 (step)
             verify_reg_range(a, 3, num_regs, "ForLoopI")?;
-            verify_jump(ip, imm, bytecode_len, "ForLoopI")?;
+            verify_jump(ip, imm, bytecode_len, starts, "ForLoopI")?;
         }
         OpCode::WhileLoopLt => {
             // WhileLoopLt uses 2 consecutive registers: a (value), a+1 (limit)
             verify_reg_range(a, 2, num_regs, "WhileLoopLt")?;
-            verify_jump(ip, imm, bytecode_len, "WhileLoopLt")?;
+            verify_jump(ip, imm, bytecode_len, starts, "WhileLoopLt")?;
         }
         OpCode::StringForLoop => {
             // StringForLoop uses 3 consecutive registers: a (char), a+1 (byte_offset), a+2 (string_ptr)
             verify_reg_range(a, 3, num_regs, "StringForLoop")?;
-            verify_jump(ip, imm, bytecode_len, "StringForLoop")?;
+            verify_jump(ip, imm, bytecode_len, starts, "StringForLoop")?;
         }
         OpCode::VecForLoop => {
             // VecForLoop uses 3 consecutive registers: a (element), a+1 (index), a+2 (vec_ptr)
             verify_reg_range(a, 3, num_regs, "VecForLoop")?;
-            verify_jump(ip, imm, bytecode_len, "VecForLoop")?;
+            verify_jump(ip, imm, bytecode_len, starts, "VecForLoop")?;
         }
         OpCode::ArrayForLoop => {
             // ArrayForLoop uses 3 consecutive registers: a (element), a+1 (index), a+2 (array_ptr)
             verify_reg_range(a, 3, num_regs, "ArrayForLoop")?;
-            verify_jump(ip, imm, bytecode_len, "ArrayForLoop")?;
+            verify_jump(ip, imm, bytecode_len, starts, "ArrayForLoop")?;
         }
         _ => return Ok(false),
     }
